@@ -1,2 +1,225 @@
-From Coq Require Import ZArith List Bool Lia.
+(* C19/Proofs.v — the buffered table (Model.v) refines the unbuffered spec (Spec.v). *)
+From Coq Require Import ZArith List Bool Lia Permutation.
 From C19 Require Import Model Spec.
+Import ListNotations.
+Open Scope Z_scope.
+
+(* ======================================================================
+   1. comparisons: equality, antisymmetry, transitivity
+   ====================================================================== *)
+Section LexFacts.
+  Context {A : Type}.
+  Variable cmp : A -> A -> comparison.
+  Hypothesis cmp_eq : forall x y, cmp x y = Eq <-> x = y.
+  Hypothesis cmp_sym : forall x y, cmp y x = CompOpp (cmp x y).
+  Hypothesis cmp_trans : forall x y z, cmp x y = Lt -> cmp y z = Lt -> cmp x z = Lt.
+
+  Lemma lex_eq : forall a b, lex_cmp cmp a b = Eq <-> a = b.
+  Proof.
+    induction a as [|x a IH]; destruct b as [|y b]; simpl; try (split; [discriminate|discriminate]); [tauto|].
+    destruct (cmp x y) eqn:E.
+    - apply cmp_eq in E. subst. rewrite IH. split; [intros ->; reflexivity | intros H; inversion H; reflexivity].
+    - split; [discriminate|]. intros H; inversion H; subst.
+      assert (cmp y y = Eq) by (apply cmp_eq; reflexivity). congruence.
+    - split; [discriminate|]. intros H; inversion H; subst.
+      assert (cmp y y = Eq) by (apply cmp_eq; reflexivity). congruence.
+  Qed.
+
+  Lemma lex_sym : forall a b, lex_cmp cmp b a = CompOpp (lex_cmp cmp a b).
+  Proof.
+    induction a as [|x a IH]; destruct b as [|y b]; simpl; try reflexivity.
+    rewrite (cmp_sym x y). destruct (cmp x y); simpl; auto.
+  Qed.
+
+  Lemma lex_trans : forall a b c, lex_cmp cmp a b = Lt -> lex_cmp cmp b c = Lt -> lex_cmp cmp a c = Lt.
+  Proof.
+    induction a as [|x a IH]; destruct b as [|y b]; destruct c as [|z c]; simpl; try discriminate; auto.
+    destruct (cmp x y) eqn:E1; try discriminate.
+    - apply cmp_eq in E1. subst y. destruct (cmp x z) eqn:E2; try discriminate; auto.
+      intros H1 H2. eauto.
+    - intros _. destruct (cmp y z) eqn:E2; try discriminate.
+      + apply cmp_eq in E2. subst z. rewrite E1. reflexivity.
+      + rewrite (cmp_trans _ _ _ E1 E2). reflexivity.
+  Qed.
+End LexFacts.
+
+Lemma Zc_eq x y : Z.compare x y = Eq <-> x = y.
+Proof. apply Z.compare_eq_iff. Qed.
+Lemma Zc_sym x y : Z.compare y x = CompOpp (Z.compare x y).
+Proof. apply Z.compare_antisym. Qed.
+Lemma Zc_trans x y z : Z.compare x y = Lt -> Z.compare y z = Lt -> Z.compare x z = Lt.
+Proof. rewrite !Z.compare_lt_iff. lia. Qed.
+
+Lemma zs_eq a b : zs_cmp a b = Eq <-> a = b.
+Proof. apply lex_eq. apply Zc_eq. Qed.
+Lemma zs_sym a b : zs_cmp b a = CompOpp (zs_cmp a b).
+Proof. apply lex_sym. apply Zc_sym. Qed.
+Lemma zs_trans a b c : zs_cmp a b = Lt -> zs_cmp b c = Lt -> zs_cmp a c = Lt.
+Proof. apply lex_trans; [apply Zc_eq | apply Zc_trans]. Qed.
+
+Lemma cell_eq a b : cell_cmp a b = Eq <-> a = b.
+Proof.
+  destruct a, b; simpl; try (split; discriminate).
+  - rewrite Zc_eq. split; congruence.
+  - rewrite zs_eq. split; congruence.
+Qed.
+Lemma cell_sym a b : cell_cmp b a = CompOpp (cell_cmp a b).
+Proof. destruct a, b; simpl; auto using Zc_sym, zs_sym. Qed.
+Lemma cell_trans a b c : cell_cmp a b = Lt -> cell_cmp b c = Lt -> cell_cmp a c = Lt.
+Proof. destruct a, b, c; simpl; try discriminate; auto; [apply Zc_trans | apply zs_trans]. Qed.
+
+Lemma key_eq a b : key_cmp a b = Eq <-> a = b.
+Proof. apply lex_eq. apply cell_eq. Qed.
+Lemma key_sym a b : key_cmp b a = CompOpp (key_cmp a b).
+Proof. apply lex_sym. apply cell_sym. Qed.
+Lemma key_trans a b c : key_cmp a b = Lt -> key_cmp b c = Lt -> key_cmp a c = Lt.
+Proof. apply lex_trans; [apply cell_eq | apply cell_trans]. Qed.
+
+(* ======================================================================
+   2. association lists ordered by a comparison
+   ====================================================================== *)
+Section AssocFacts.
+  Context {K V : Type}.
+  Variable cmp : K -> K -> comparison.
+  Hypothesis cmp_eq : forall x y, cmp x y = Eq <-> x = y.
+  Hypothesis cmp_sym : forall x y, cmp y x = CompOpp (cmp x y).
+  Hypothesis cmp_trans : forall x y z, cmp x y = Lt -> cmp y z = Lt -> cmp x z = Lt.
+
+  Notation E := (K * V)%type.
+  Notation keys := (map (@fst K V)).
+
+  Lemma cmp_refl x : cmp x x = Eq.
+  Proof. apply cmp_eq. reflexivity. Qed.
+
+  Lemma keqb_true a b : keqb cmp a b = true <-> a = b.
+  Proof. unfold keqb. destruct (cmp a b) eqn:Ec; rewrite <- cmp_eq, Ec; split; congruence. Qed.
+
+  Lemma keqb_refl a : keqb cmp a a = true.
+  Proof. apply keqb_true. reflexivity. Qed.
+
+  Lemma keqb_false a b : keqb cmp a b = false <-> a <> b.
+  Proof. rewrite <- keqb_true. destruct (keqb cmp a b); split; congruence. Qed.
+
+  Lemma memk_In k ks : memk cmp k ks = true <-> In k ks.
+  Proof.
+    induction ks as [|k' t IH]; simpl; [split; [discriminate|tauto]|].
+    rewrite orb_true_iff, IH, keqb_true. split; intros [H|H]; auto.
+  Qed.
+
+  Lemma memk_false k ks : memk cmp k ks = false <-> ~ In k ks.
+  Proof. rewrite <- memk_In. destruct (memk cmp k ks); split; congruence. Qed.
+
+  Lemma has_dup_false ks : has_dup cmp ks = false <-> NoDup ks.
+  Proof.
+    induction ks as [|k t IH]; simpl; [split; [constructor|reflexivity]|].
+    rewrite orb_false_iff, IH, memk_false. split.
+    - intros [H1 H2]. constructor; assumption.
+    - intros H. inversion H; subst. split; assumption.
+  Qed.
+
+  (* ---- lookup ---- *)
+  Lemma lookup_none k (l : list E) : lookup cmp k l = None <-> ~ In k (keys l).
+  Proof.
+    induction l as [|e t IH]; simpl; [tauto|].
+    destruct (keqb cmp k (fst e)) eqn:Ek.
+    - apply keqb_true in Ek. split; [discriminate|]. intros H. exfalso. apply H. left. auto.
+    - apply keqb_false in Ek. rewrite IH. split; intros H; [intros [H1|H1]; [congruence|auto] | auto].
+  Qed.
+
+  Lemma lookup_some_in k v (l : list E) : lookup cmp k l = Some v -> In k (keys l).
+  Proof.
+    intros H. destruct (memk cmp k (keys l)) eqn:Em; [apply memk_In; exact Em|].
+    apply memk_false in Em. apply lookup_none in Em. congruence.
+  Qed.
+
+  Lemma lookup_in k v (l : list E) : NoDup (keys l) -> (lookup cmp k l = Some v <-> In (k, v) l).
+  Proof.
+    induction l as [|e t IH]; simpl; intros ND; [split; [discriminate|tauto]|].
+    inversion ND as [|? ? Hn ND']; subst.
+    destruct (keqb cmp k (fst e)) eqn:Ek.
+    - apply keqb_true in Ek. split.
+      + intros H. inversion H; subst. left. destruct e; reflexivity.
+      + intros [H|H]; [subst e; reflexivity|].
+        exfalso. apply Hn. subst k. change (fst e) with (fst (fst e, v)). apply in_map. exact H.
+    - apply keqb_false in Ek. rewrite (IH ND'). split; [auto|].
+      intros [H|H]; [subst e; simpl in Ek; congruence | exact H].
+  Qed.
+
+  Lemma lookup_perm k (l1 l2 : list E) : NoDup (keys l1) -> Permutation l1 l2 -> lookup cmp k l1 = lookup cmp k l2.
+  Proof.
+    intros ND P.
+    assert (ND2 : NoDup (keys l2)) by (eapply Permutation_NoDup; [apply Permutation_map; exact P | exact ND]).
+    destruct (lookup cmp k l1) as [v|] eqn:E1.
+    - symmetry. apply (lookup_in _ _ _ ND2). eapply Permutation_in; [exact P|]. apply (lookup_in _ _ _ ND). exact E1.
+    - symmetry. apply lookup_none. intros H. apply lookup_none in E1. apply E1.
+      eapply Permutation_in; [apply Permutation_sym, Permutation_map; exact P | exact H].
+  Qed.
+
+  Lemma lookup_app k (a b : list E) :
+    lookup cmp k (a ++ b) = match lookup cmp k a with Some v => Some v | None => lookup cmp k b end.
+  Proof. induction a as [|e t IH]; simpl; [reflexivity|]. destruct (keqb cmp k (fst e)); auto. Qed.
+
+  (* ---- strictly / weakly sorted key lists ---- *)
+  Fixpoint sk (ks : list K) : Prop :=
+    match ks with [] => True | k :: t => Forall (fun k' => cmp k k' = Lt) t /\ sk t end.
+  Fixpoint wk (ks : list K) : Prop :=
+    match ks with [] => True | k :: t => Forall (fun k' => cmp k k' <> Gt) t /\ wk t end.
+
+  Lemma lt_neq a b : cmp a b = Lt -> a <> b.
+  Proof. intros H ->. rewrite cmp_refl in H. discriminate. Qed.
+
+  Lemma sk_nodup ks : sk ks -> NoDup ks.
+  Proof.
+    induction ks as [|k t IH]; simpl; [constructor|]. intros [H1 H2]. constructor; [|auto].
+    intros Hin. rewrite Forall_forall in H1. apply (lt_neq _ _ (H1 _ Hin)). reflexivity.
+  Qed.
+
+  Lemma wk_nodup_sk ks : wk ks -> NoDup ks -> sk ks.
+  Proof.
+    induction ks as [|k t IH]; simpl; [auto|]. intros [H1 H2] ND. inversion ND; subst. split; [|auto].
+    rewrite Forall_forall in *. intros k' Hin. specialize (H1 _ Hin).
+    destruct (cmp k k') eqn:Ec; [|reflexivity|congruence].
+    apply cmp_eq in Ec. subst. contradiction.
+  Qed.
+
+  Lemma sk_head_notin k t : sk (k :: t) -> ~ In k t.
+  Proof. intros H. apply sk_nodup in H. inversion H; assumption. Qed.
+
+  (* two strictly sorted lists with the same lookups are equal *)
+  Lemma canon (l1 l2 : list E) :
+    sk (keys l1) -> sk (keys l2) -> (forall k, lookup cmp k l1 = lookup cmp k l2) -> l1 = l2.
+  Proof.
+    revert l2. induction l1 as [|e1 t1 IH]; intros [|e2 t2] S1 S2 HL.
+    - reflexivity.
+    - specialize (HL (fst e2)). simpl in HL. rewrite keqb_refl in HL. discriminate.
+    - specialize (HL (fst e1)). simpl in HL. rewrite keqb_refl in HL. discriminate.
+    - simpl in S1, S2. destruct S1 as [F1 S1], S2 as [F2 S2]. rewrite Forall_forall in F1, F2.
+      assert (Hk : fst e1 = fst e2).
+      { destruct (cmp (fst e1) (fst e2)) eqn:Ec.
+        - apply cmp_eq. exact Ec.
+        - exfalso. pose proof (HL (fst e1)) as H. simpl in H. rewrite keqb_refl in H.
+          assert (Hne : keqb cmp (fst e1) (fst e2) = false) by (apply keqb_false, lt_neq; exact Ec).
+          rewrite Hne in H. symmetry in H.
+          assert (Hin : In (fst e1) (keys t2)) by (eapply lookup_some_in; exact H).
+          specialize (F2 _ Hin). pose proof (cmp_trans _ _ _ Ec F2) as Hc. rewrite cmp_refl in Hc. discriminate.
+        - exfalso. assert (Ec' : cmp (fst e2) (fst e1) = Lt) by (rewrite cmp_sym, Ec; reflexivity).
+          pose proof (HL (fst e2)) as H. simpl in H. rewrite keqb_refl in H.
+          assert (Hne : keqb cmp (fst e2) (fst e1) = false) by (apply keqb_false, lt_neq; exact Ec').
+          rewrite Hne in H.
+          destruct (lookup cmp (fst e2) t1) eqn:El; [|discriminate].
+          assert (Hin : In (fst e2) (keys t1)) by (eapply lookup_some_in; exact El).
+          specialize (F1 _ Hin). pose proof (cmp_trans _ _ _ Ec' F1) as Hc. rewrite cmp_refl in Hc. discriminate. }
+      assert (Hv : snd e1 = snd e2).
+      { pose proof (HL (fst e1)) as H. simpl in H. rewrite keqb_refl, Hk, keqb_refl in H. congruence. }
+      f_equal; [destruct e1, e2; simpl in *; congruence|].
+      apply IH; auto. intros k. pose proof (HL k) as H. simpl in H.
+      destruct (keqb cmp k (fst e1)) eqn:Ek.
+      + apply keqb_true in Ek. subst k.
+        assert (N1 : lookup cmp (fst e1) t1 = None).
+        { apply lookup_none. intros Hin. apply (lt_neq _ _ (F1 _ Hin)). reflexivity. }
+        assert (N2 : lookup cmp (fst e1) t2 = None).
+        { apply lookup_none. rewrite Hk. intros Hin. apply (lt_neq _ _ (F2 _ Hin)). reflexivity. }
+        congruence.
+      + rewrite <- Hk, Ek in H. exact H.
+  Qed.
+End AssocFacts.
